@@ -510,6 +510,31 @@ func simpleSends() []*Stmt {
 	return out
 }
 
+// zeroPortionBlock: three-way allotments (sources and destinations) in which a portion is zero - literally or through a
+// variable - at every position, with amounts that do not divide evenly: who gets the units left after flooring?
+func zeroPortionBlock(base Bounds) *Block {
+	lit := func(s string) Portion { return Portion{K: PLit, S: s} }
+	rem := Portion{K: PRemaining}
+	pv := Portion{K: PVar, S: "p"}
+	sets := [][]Portion{
+		{lit("0%"), lit("1/3"), rem}, {lit("1/3"), lit("0%"), rem}, {lit("1/3"), rem, lit("0%")}, {lit("0%"), lit("0%"), lit("100%")},
+		{lit("0%"), rem, lit("1/3")}, {pv, lit("1/3"), rem}, {lit("1/3"), pv, rem}, {lit("0/7"), lit("2/3"), lit("1/3")},
+	}
+	kd := func(a string) KD { return To(DstAcc(Acc(a))) }
+	var dests []*Dest
+	var srcs []VSource
+	for _, ps := range sets {
+		dests = append(dests, &Dest{K: DAllot, Portions: ps, Items: []KD{kd("c"), kd("a"), kd("b")}})
+		dests = append(dests, &Dest{K: DAllot, Portions: ps, Items: []KD{kd("c"), Kept(), kd("b")}})
+		srcs = append(srcs, VSource{Portions: ps, Srcs: []*Source{SrcAcc(Acc("a")), SrcAcc(Acc("b")), SrcAcc(Acc("world"))}})
+		srcs = append(srcs, VSource{Portions: ps, Srcs: []*Source{SrcUnb(Acc("a")), SrcAcc(Acc("world")), SrcAcc(Acc("b"))}})
+	}
+	plain := []VSource{{Src: SrcAcc(Acc("world"))}, {Src: SrcAcc(Acc("a"))}, {Src: SrcUnb(Acc("a"))}}
+	// (computed amounts too: the amount of a send from portioned sources is evaluated on another path than a literal)
+	amounts := append(append([]Amount{}, base.Amounts()...), Amount{Mon: Add(X(7), X(1))}, Amount{Mon: Sub(X(100), X(40))}, Amount{Mon: Add(Var("m"), X(1))})
+	return &Block{Name: "zero-portions", Amounts: amounts, Sources: append(plain, srcs...), Dests: append(dests, DstAcc(Acc("c")))}
+}
+
 // constantStmts: statements whose literals meet in the compiler's constant pool - numbers and amounts at the word-size
 // boundaries (2^63, 2^64 and neighbours, congruent to the small integers the compiler itself emits), in either order with a send
 func constantStmts() []*Stmt {
@@ -606,6 +631,7 @@ func StandardSpace(thorough bool) *Space {
 	add(&Block{Name: "deep-src", Amounts: base.Amounts()[:3], Sources: vs(deep.sourcesAt(2)), Dests: base.dstLeaves()[:2]})
 	add(&Block{Name: "deep-dst", Amounts: base.Amounts()[:3], Sources: vs(base.srcLeaves()[:4]), Dests: deep.Dests()})
 	add(&SeqBlock{Name: "three-sends", Alphabet: simpleSends(), Len: 3})
+	add(zeroPortionBlock(base))
 	add(&SeqBlock{Name: "constant-pool", Alphabet: constantStmts(), Len: 2})
 	add(&SeqBlock{Name: "three-sends-self-and-all", Alphabet: append(simpleSends()[:6], selfAndAllSends()...), Len: 3})
 	if thorough {
